@@ -20,6 +20,9 @@ type C17Params struct {
 	Img      ImgSpec `json:"img"`
 	Opt      OptSpec `json:"opt"`
 	Testdata string  `json:"testdata,omitempty"` // file name under /repo/testdata instead of (Img,Opt)
+	// Craft != 0: a hand-crafted VP8 key frame (valid by construction: constructs no
+	// encoder emits, 1-8 token partitions of odd sizes, skip flags off, ...) instead of (Img,Opt)
+	Craft uint64 `json:"craft_seed,omitempty"`
 	Procs    int     `json:"procs"`
 	Seed     uint64  `json:"seed"`
 	// Only: restrict the enumeration to this cut (replay / minimisation); -1 = all
@@ -46,6 +49,10 @@ func (propC17) Gen(seed uint64, tier string, idx int) any {
 	p := &C17Params{Seed: r.Next(), Procs: r.Pick(1, 1, 4), Only: -1}
 	if idx < len(testdataFiles) {
 		p.Testdata = testdataFiles[idx]
+		return p
+	}
+	if idx%9 == 8 {
+		p.Craft = r.Next() | 1
 		return p
 	}
 	maxSide := 40
@@ -151,6 +158,9 @@ func (propC17) Execute(pp any, x *X) *Violation {
 			return nil
 		}
 		data = b
+	} else if p.Craft != 0 {
+		data = CraftVP8(NewRNG(p.Craft), VP8Craft{NoDamage: true, MaxLevel: 66})
+		name = fmt.Sprintf("crafted-vp8 seed %d", p.Craft)
 	} else {
 		data = FileFor(p.Img, p.Opt)
 		name = p.Img.String() + " " + p.Opt.String()
@@ -165,6 +175,9 @@ func (propC17) Execute(pp any, x *X) *Violation {
 		class = wf.Format
 		if wf.Frames[0].Alph != nil {
 			class += "+alph"
+		}
+		if p.Craft != 0 {
+			class = "crafted-vp8"
 		}
 	}
 	var viol *Violation
@@ -287,7 +300,7 @@ func nearChunkEdge(wf *WFile, cut int) bool {
 
 func (propC17) Describe() PropDoc {
 	return PropDoc{
-		Rule: "one run = one still file written by the real encoder (lossy with 1/2/4/8 partitions, lossless, lossy+raw/compressed alpha with each filter, VP8X with ICC before and EXIF/XMP after the image; plus the testdata files) x EVERY proper prefix 0..len-1 (files over 8 KB: every prefix near chunk edges, every 17th elsewhere), each delivered by one of three reader behaviours (with Len(), without, piecewise with (n,EOF)), plus a sampled reader that fails instead of EOF; Decode, DecodeConfig and GetFeatures are run on each. distinct non-trivial = distinct <file, cut point> pairs with cut > 0. Exhaustive per generated file, sampled over files.",
+		Rule: "one run = one still file written by the real encoder (lossy with 1/2/4/8 partitions, lossless, lossy+raw/compressed alpha with each filter, VP8X with ICC before and EXIF/XMP after the image; plus the testdata files; every ninth file is a hand-crafted valid VP8 key frame with constructs no encoder emits) x EVERY proper prefix 0..len-1 (files over 8 KB: every prefix near chunk edges, every 17th elsewhere), each delivered by one of three reader behaviours (with Len(), without, piecewise with (n,EOF)), plus a sampled reader that fails instead of EOF; Decode, DecodeConfig and GetFeatures are run on each. distinct non-trivial = distinct <file, cut point> pairs with cut > 0. Exhaustive per generated file, sampled over files.",
 		Assumptions: []string{
 			"the set of files is a seeded sample; for each file up to 8 KB the enumeration of cut points is complete",
 			"'identical' compares type, bounds and every sample of the decoded image, and the full Config / Features structs",
@@ -295,7 +308,7 @@ func (propC17) Describe() PropDoc {
 		Real:      []string{"every line of deepteams/webp, rewritten by simgen"},
 		Simulated: []string{"the byte store (torn write at every byte)", "io.Reader behaviours incl. a failing read"},
 		Reference: []string{"the same entry point on the complete file"},
-		MustReach: []string{"torn_write_prefix", "read_error_instead_of_eof", "file_class_extended", "file_class_extended+alph", "file_class_lossy", "file_class_lossless"},
+		MustReach: []string{"torn_write_prefix", "read_error_instead_of_eof", "file_class_extended", "file_class_extended+alph", "file_class_lossy", "file_class_lossless", "file_class_crafted-vp8"},
 	}
 }
 
